@@ -37,6 +37,7 @@ class H:
     def __init__(self, tag, opset=18):
         self.tag, self.opset = tag, opset
         self.nodes, self.inits, self.inputs, self.outputs = [], [], [], []
+        self.out_types = {}  # fallback declarations for outputs whose type shape inference does not give
 
     def inp(self, name, dt, shape):
         self.inputs.append((name, dt, list(shape)))
@@ -64,7 +65,9 @@ class H:
             vi = {v.name: v for v in list(mi.graph.value_info) + list(mi.graph.output)}
             del m.graph.output[:]
             for n in self.outputs:
-                if n in vi and vi[n].type.HasField("tensor_type"):
+                if n in self.out_types and not (n in vi and vi[n].type.tensor_type.HasField("shape")):
+                    m.graph.output.append(oh.make_tensor_value_info(n, *self.out_types[n]))
+                elif n in vi and vi[n].type.HasField("tensor_type"):
                     m.graph.output.append(vi[n])
                 else:
                     m.graph.output.append(oh.make_empty_tensor_value_info(n))
@@ -706,11 +709,99 @@ def hosts_scatter():
     return out
 
 
+def _sub(name, nodes, outs, inits=(), inputs=()):
+    return oh.make_graph(list(nodes), name, [oh.make_tensor_value_info(n, dt, sh) for n, dt, sh in inputs],
+                         [oh.make_tensor_value_info(n, dt, sh) for n, dt, sh in outs], list(inits))
+
+
+def hosts_control_flow():
+    """Subgraph handling of the optimizer (no rewrite rule of its own; used by C03/C04): branch / body outputs that are
+    pass-throughs (Identity) of values from the enclosing graph, of graph inputs, of outer initializers, of values made inside;
+    foldable constants inside branches; nested If; Loop bodies forwarding outer values."""
+    out = []
+    N = oh.make_node
+    for cond_form in ("input", "const_true", "const_false"):
+        for then_kind, else_kind in itertools.product(
+                ["id_outer_node", "id_input", "id_outer_init", "id_inner", "folded_const", "neg_outer"],
+                ["neg_outer", "id_outer_node", "id_inner"]):
+            h = H(f"If cond={cond_form} then={then_kind} else={else_kind}")
+            h.inp("x", F, (3,))
+            if cond_form == "input":
+                h.inp("c", B, ())
+            else:
+                h.c("c", np.array(cond_form == "const_true"))
+            h.c("w", np.array([0.5, -1.0, 2.0], dtype=f32))
+            h.n("Relu", ["x"], "t")
+
+            def br(kind, pfx):
+                o = pfx + "_z"
+                sh = [3]
+                if kind == "id_outer_node":
+                    return _sub(pfx, [N("Identity", ["t"], [o])], [(o, F, sh)])
+                if kind == "id_input":
+                    return _sub(pfx, [N("Identity", ["x"], [o])], [(o, F, sh)])
+                if kind == "id_outer_init":
+                    return _sub(pfx, [N("Identity", ["w"], [o])], [(o, F, sh)])
+                if kind == "id_inner":
+                    return _sub(pfx, [N("Mul", ["t", "w"], [pfx + "_m"]), N("Identity", [pfx + "_m"], [o])], [(o, F, sh)])
+                if kind == "folded_const":
+                    k1 = nh.from_array(np.array([1.0, 2.0, 3.0], dtype=f32), pfx + "_k1")
+                    k2 = nh.from_array(np.array(2.0, dtype=f32), pfx + "_k2")
+                    return _sub(pfx, [N("Mul", [pfx + "_k1", pfx + "_k2"], [pfx + "_m"]), N("Identity", [pfx + "_m"], [o])],
+                                [(o, F, sh)], [k1, k2])
+                return _sub(pfx, [N("Neg", ["t"], [o])], [(o, F, sh)])
+            h.n("If", ["c"], "z", then_branch=br(then_kind, "then"), else_branch=br(else_kind, "else"))
+            h.n("Add", ["z", "t"], "y")
+            h.out("y")
+            out.append(h.build())
+    # nested If: the inner branch forwards a value of the OUTER-most graph and one of the middle graph
+    for inner in ("id_outermost", "id_middle"):
+        h = H(f"nested If inner={inner}")
+        h.inp("x", F, (2,))
+        h.inp("c", B, ())
+        h.inp("d", B, ())
+        h.n("Abs", ["x"], "t")
+        src = "t" if inner == "id_outermost" else "mid_m"
+        inner_then = _sub("ithen", [N("Identity", [src], ["ithen_z"])], [("ithen_z", F, [2])])
+        inner_else = _sub("ielse", [N("Neg", [src], ["ielse_z"])], [("ielse_z", F, [2])])
+        then = _sub("then", [N("Exp", ["t"], ["mid_m"]), N("If", ["d"], ["then_z"], then_branch=inner_then, else_branch=inner_else)],
+                    [("then_z", F, [2])])
+        els = _sub("else", [N("Identity", ["t"], ["else_z"])], [("else_z", F, [2])])
+        h.n("If", ["c"], "z", then_branch=then, else_branch=els)
+        h.out("z")
+        out.append(h.build())
+    # Loop: state / scan outputs that forward outer values
+    for kind in ("state_id_outer", "scan_id_outer", "state_id_state"):
+        for trips in (0, 2):
+            h = H(f"Loop {kind} trips={trips}")
+            h.inp("x", F, (2,))
+            h.c("n", np.array(trips, dtype=np.int64))
+            h.c("k", np.array(True))
+            h.n("Relu", ["x"], "t")
+            ins = [("it", I64, []), ("ci", B, []), ("st", F, [2])]
+            if kind == "state_id_outer":
+                body = _sub("body", [N("Identity", ["ci"], ["co"]), N("Identity", ["t"], ["so"])], [("co", B, []), ("so", F, [2])], inputs=ins)
+                h.n("Loop", ["n", "k", "x"], "z", body=body)
+            elif kind == "state_id_state":
+                body = _sub("body", [N("Identity", ["ci"], ["co"]), N("Identity", ["st"], ["so"])], [("co", B, []), ("so", F, [2])], inputs=ins)
+                h.n("Loop", ["n", "k", "t"], "z", body=body)
+            else:
+                body = _sub("body", [N("Identity", ["ci"], ["co"]), N("Add", ["st", "t"], ["so"]), N("Identity", ["t"], ["sc"])],
+                            [("co", B, []), ("so", F, [2]), ("sc", F, [2])], inputs=ins)
+                h.n("Loop", ["n", "k", "x"], ["z", "zs"], body=body)
+            h.n("Neg", ["z"], "y")
+            h.out_types = {"y": (F, [2]), "zs": (F, [trips, 2])}
+            h.out("y", *(["zs"] if kind == "scan_id_outer" else []))
+            out.append(h.build())
+    return out
+
+
 FAMILIES = {
     "identity_ops": hosts_identity_ops, "casts": hosts_casts, "slices": hosts_slices, "dropout": hosts_dropout,
     "dropout_runtime": hosts_dropout_runtime,
     "expand": hosts_expand, "reshape_family": hosts_reshape_family, "clip_relu_minmax": hosts_clip_relu_minmax,
     "hardswish": hosts_hardswish, "matmul_gemm": hosts_matmul_gemm, "conv": hosts_conv, "scatter": hosts_scatter,
+    "control_flow": hosts_control_flow,
 }
 
 
@@ -734,6 +825,6 @@ def rule_models_for_optimizer(tier):
         out = []
         for fam, hs in by_fam.items():
             r.shuffle(hs)
-            out += hs[:25]
+            out += hs if fam == "control_flow" else hs[:25]
         return out
     return hosts
